@@ -344,6 +344,9 @@ func c14Lifetime(timeout time.Duration) (string, string, bool) {
 	return "", "", true
 }
 
+// c14Infra are outcomes that say nothing about the property: the probe could not be set up.
+var c14Infra = map[string]bool{"server-start": true, "connect": true, "host-connect": true}
+
 func TestVerifC14Server(t *testing.T) {
 	rec := verifkit.NewRecorder("C14", "server")
 	defer rec.Flush()
@@ -400,6 +403,13 @@ func TestVerifC14Server(t *testing.T) {
 	for _, o := range outs {
 		rec.Eval()
 		rec.Class("probe/" + strings.SplitN(o.p.name, "=", 2)[0])
+		if c14Infra[o.sig] {
+			// the probe could not be set up (server did not start, a client the probe needs
+			// could not connect): nothing was observed about a limit
+			rec.Class("probe-not-run")
+			rec.Note("probe %s not run: %s %s", o.p.name, o.sig, o.detail)
+			continue
+		}
 		if o.sig != "" {
 			rec.Fail(t, o.sig, o.detail+" | probe: "+o.p.name)
 			continue
@@ -433,6 +443,10 @@ func TestVerifC14Server(t *testing.T) {
 			rate := rapid.SampledFrom([]int{0, 10, 40}).Draw(rt, "rate")
 			idle := rapid.SampledFrom([]time.Duration{0, 0, 900 * time.Millisecond}).Draw(rt, "idle")
 			sig, detail, nt = c14MsgRate(rate, rapid.IntRange(1, 8).Draw(rt, "b"), rapid.IntRange(20, 120).Draw(rt, "n"), idle)
+		}
+		if c14Infra[sig] {
+			rec.Class("probe-not-run")
+			return
 		}
 		rec.Eval()
 		rec.Class("generated/" + kind)
